@@ -317,7 +317,7 @@ func amendResourceAccordingToPodFeatures(resource *Resource, pod *v1.Pod) {
 	}
 
 	if utilfeature.DefaultFeatureGate.Enabled(features.PodLevelResources) && helpers.IsPodLevelRequestsSet(pod) {
-		podLevelResource := NewResource(pod.Spec.Resources.Requests)
+		podLevelResource := NewResource(determinePodLevelReqs(pod))
 		for rName := range pod.Spec.Resources.Requests {
 			if helpers.IsSupportedPodLevelResource(rName) {
 				switch rName {
@@ -377,6 +377,21 @@ func amendResourceLimitAccordingToPodFeatures(resource *Resource, pod *v1.Pod) {
 			}
 		}
 	}
+}
+
+// determinePodLevelReqs returns the effective pod-level requests. While a pod-level in-place resize is
+// pending the kubelet still holds the actuated / allocated amounts, so, like
+// k8s.io/component-helpers/resource.PodRequests, the larger of spec, actuated and allocated is used.
+func determinePodLevelReqs(pod *v1.Pod) v1.ResourceList {
+	if !utilfeature.DefaultFeatureGate.Enabled(features.InPlacePodLevelResourcesVerticalScaling) ||
+		!utilfeature.DefaultFeatureGate.Enabled(features.InPlacePodVerticalScaling) ||
+		pod.Status.Resources == nil {
+		return pod.Spec.Resources.Requests
+	}
+	if helpers.IsPodResizeInfeasible(pod) {
+		return maxFn(pod.Status.Resources.Requests, pod.Status.AllocatedResources)
+	}
+	return maxFn(pod.Spec.Resources.Requests, pod.Status.Resources.Requests, pod.Status.AllocatedResources)
 }
 
 // determineContainerReqs will return a copy of the container requests based on if resizing is feasible or not.
